@@ -9,7 +9,7 @@ from harness.points import canon
 from harness.translate import translator_obligations
 
 MODULE = 'Ndt.Props.C05'
-THEOREMS = ['Ndt.dCentral_depends', 'Ndt.dCentralEven_depends', 'Ndt.dForward_depends', 'Ndt.dBackward_depends', 'Ndt.dComplex_depends',
+THEOREMS = ['Ndt.imaginary_only_rule_selected', 'Ndt.dCentral_depends', 'Ndt.dCentralEven_depends', 'Ndt.dForward_depends', 'Ndt.dBackward_depends', 'Ndt.dComplex_depends',
             'Ndt.scalar_onesided', 'Ndt.scalar_central_symmetric', 'Ndt.scalar_imaginary_only', 'Ndt.scalar_near',
             'Ndt.jacobian_one_coordinate', 'Ndt.hessdiag_one_coordinate', 'Ndt.hessdiag_real_points', 'Ndt.mem_pairs',
             'Ndt.hessian_two_coordinates', 'Ndt.hessian_forward_onesided', 'Ndt.hessian_backward_onesided']
@@ -195,7 +195,11 @@ def run(ctx):
             if m == 'backward' and not (np.all(re_ <= xs) and np.all(im_ == 0) and np.all(z2r == 0)):
                 ctx.violation('backward evaluated f above x', point=r.tolist(), **rep)
                 break
-            if (m == 'multicomplex' or name == '_complex') and not np.all(re_ == xs):
+            # the plain rule f(x + ih) is what method 'complex' promises for a first derivative of effective order 2 (order 1, 2, 3:
+            # LogRule.method_order rounds the order down to an even number, at least 2); decided here from the configuration, not
+            # from the name of the difference function the implementation happened to pick
+            plain_complex = (m == 'complex' and n == 1 and cls in ('Derivative', 'Gradient', 'Jacobian') and max((order // 2) * 2, 2) == 2)
+            if (m == 'multicomplex' or name == '_complex' or plain_complex) and not np.all(re_ == xs):
                 ctx.violation('a complex-step rule that should only perturb imaginary parts moved the real part', point=r.tolist(), **rep)
                 break
             moved = int(np.sum(np.any(r != np.stack([xs, 0 * xs, 0 * xs, 0 * xs], axis=-1), axis=-1)))
